@@ -839,6 +839,8 @@ impl Property for P13 {
                 }
             }
         }
+        // one fixed long history on one Encoder (300 small integers): counters per call on the encoder
+        out.push(C13::Encode { values: (0..300u64).map(|i| ValSpec { ty: if i % 2 == 0 { Ty::U16 } else { Ty::Str }, size: (i % 3) as u32, seed: i }).collect(), sink: None, cap: None, io_seed: 5 });
         // raw histories: every (cap, single write length 0..=cap+1) and every pair, for small caps
         for sink in [Sink::Slice, Sink::SliceCursor, Sink::ArrayCursor, Sink::BoxCursor] {
             for cap in 0..=6u32 {
@@ -890,6 +892,13 @@ impl Property for P13 {
                 }
                 _ => {}
             }
+            return C13::Encode { values, sink: None, cap: None, io_seed: r.next_u64() };
+        }
+        // a long history on ONE Encoder: hundreds of tiny values, most of them refused at the small capacities (state that
+        // accumulates per failed or per successful call on the encoder)
+        if r.chance(1, if tier == Tier::Thorough { 600 } else { 1500 }) {
+            let k = r.range(260, 420) as usize;
+            let values = (0..k).map(|_| ValSpec { ty: *r.pick(ALL_TYS), size: r.below(3) as u32, seed: r.next_u64() }).collect();
             return C13::Encode { values, sink: None, cap: None, io_seed: r.next_u64() };
         }
         let big = tier == Tier::Thorough && r.chance(1, 200);
